@@ -379,6 +379,22 @@ func runC12(c *Ctx) {
 			mal("missing-crlf-after-header", rep1("cdef\r\n", "cdef"), len(payload), "first header", "reject")
 			mal("missing-crlf-after-data", []byte(strings.Replace(string(good), string(payload[:24])+"\r\n", string(payload[:24]), 1)), len(payload), "first chunk", "reject")
 			mal("extra-data-after-final-chunk", append(append([]byte(nil), good...), []byte("5;chunk-signature="+strings.Repeat("a", 64)+"\r\nhello\r\n")...), len(payload), "tail", "reject")
+			// framing that differs from '<hex size>;chunk-signature=<64 hex>CRLF<data>CRLF' without shifting anything
+			mal("crlf-after-data-replaced", []byte(strings.Replace(string(good), string(payload[:24])+"\r\n", string(payload[:24])+"XY", 1)), len(payload), "first chunk", "reject")
+			mal("crlf-after-header-replaced", rep1("cdef\r\n", "cdefXY"), len(payload), "first header", "reject")
+			mal("extension-not-chunk-signature", rep1(";chunk-signature=", ";chunk-sXgnature="), len(payload), "first header", "reject")
+			mal("plus-signed-size", rep1("18;", "+18;"), len(payload), "first header", "reject")
+			mal("space-padded-size", rep1("18;", " 18;"), len(payload), "first header", "reject")
+			mal("negative-size", rep1("18;", "-18;"), len(payload), "first header", "reject")
+			{
+				// well-formed chunks after the terminating zero chunk, declared length = everything
+				tail := "5;chunk-signature=" + strings.Repeat("a", 64) + "\r\nhello\r\n0;chunk-signature=" + strings.Repeat("b", 64) + "\r\n\r\n"
+				mal("chunks-after-final-chunk", append(append([]byte(nil), good...), []byte(tail)...), len(payload)+5, "tail", "reject")
+				// a zero chunk in the middle, then a chunk that is cut short, declared length = what arrived
+				mid := chunkEncode(payload[:24], []int{24})
+				cut := "18;chunk-signature=" + strings.Repeat("c", 64) + "\r\n" + string(payload[24:30])
+				mal("truncated-chunk-after-zero-chunk", append(append([]byte(nil), mid...), []byte(cut)...), 30, "tail", "reject")
+			}
 			mal("empty-stream", nil, len(payload), "-", "reject")
 			mal("plain-body-not-chunked", payload, len(payload), "-", "reject")
 		}
